@@ -9,6 +9,7 @@ import (
 	"runtime"
 	"strings"
 	"sync"
+	"syscall"
 	"time"
 
 	"grol.io/grol/repl"
@@ -22,6 +23,14 @@ import (
 func c18Script(n int, tag string) string {
 	if n == 0 {
 		return "1 + 1" // changes nothing: auto-save must be skipped
+	}
+	if n < 0 {
+		// shrink: delete the large values of the previous state (the new file is less than half the previous one)
+		return "del(bigp)\ndel(bigp2)\ndel(bigp3)\nshrunk = 1\n"
+	}
+	if n == 41 {
+		// a previous state of more than 8 KiB (three values just under the 4000-byte save limit)
+		return c18Script(40, tag) + fmt.Sprintf("big%s2 = \"%s\"\nbig%s3 = \"%s\"\n", tag, strings.Repeat("y", 3000), tag, strings.Repeat("z", 3000))
 	}
 	var sb strings.Builder
 	for i := 0; i < n; i++ {
@@ -79,6 +88,7 @@ func c18ReadGr(dir string) (string, bool) {
 }
 
 type c18Env struct {
+	otherFS string // a writable directory on another file system than tmp ("" if none)
 	self   string
 	tmp    string
 	mu     sync.Mutex
@@ -110,6 +120,10 @@ func (e *c18Env) run(dir, script string, extraEnv []string, mode string, wrap []
 		cmd = exec.Command(e.self, args...)
 	}
 	cmd.Env = append(append(os.Environ(), "GOMAXPROCS=1"), extraEnv...)
+	if e.otherFS != "" {
+		// temporary files created "somewhere else" would land on another file system than the state file's directory
+		cmd.Env = append(cmd.Env, "TMPDIR="+e.otherFS)
+	}
 	var buf bytes.Buffer
 	cmd.Stdout = &buf
 	cmd.Stderr = &buf
@@ -145,7 +159,20 @@ func runC18(c *core.Ctx) {
 	}
 	defer os.RemoveAll(tmp)
 	env := &c18Env{self: self, tmp: tmp}
-	pairs := []c18Pair{{0, 1}, {1, 5}, {5, 1}, {5, 40}}
+	for _, cand := range []string{"/dev/shm", "/run", "/var/tmp", "/root"} {
+		var a, b syscall.Stat_t
+		if syscall.Stat(cand, &a) == nil && syscall.Stat(tmp, &b) == nil && a.Dev != b.Dev {
+			if d, err := os.MkdirTemp(cand, "c18tmp-"); err == nil {
+				env.otherFS = d
+				defer os.RemoveAll(d)
+				break
+			}
+		}
+	}
+	if env.otherFS == "" {
+		c.Note("no_second_filesystem", 1)
+	}
+	pairs := []c18Pair{{0, 1}, {1, 5}, {5, 1}, {5, 40}, {41, -1}}
 	if !c.Quick() {
 		pairs = nil
 		for _, p := range []int{0, 1, 5, 40} {
@@ -153,6 +180,7 @@ func runC18(c *core.Ctx) {
 				pairs = append(pairs, c18Pair{p, n})
 			}
 		}
+		pairs = append(pairs, c18Pair{41, -1}, c18Pair{41, 1})
 	}
 	var bounds []string
 	totalPoints := 0
@@ -331,7 +359,7 @@ func runC18(c *core.Ctx) {
 		}
 		c.P.Traces++
 	}
-	bounds = append(bounds, fmt.Sprintf("%d (previous, new) state pairs over sizes {none,1,5,40 bindings incl. a 3kB value} x every crash point of the clean run (%d points in total: before/after creating the temporary file, after each written binding, after the last write, after the rename) x every write-failure position", len(pairs), totalPoints))
+	bounds = append(bounds, fmt.Sprintf("%d (previous, new) state pairs over sizes {none,1,5,40 bindings incl. a 3kB value, a 9 kB state shrunk to under half; TMPDIR on another file system} x every crash point of the clean run (%d points in total: before/after creating the temporary file, after each written binding, after the last write, after the rename) x every write-failure position", len(pairs), totalPoints))
 	if !c.Quick() {
 		bounds = append(bounds, "plus SIGKILL and ENOSPC injected at every file-syscall boundary of the child (strace fault injection) for the pairs with <=5 new bindings")
 	}
